@@ -54,20 +54,21 @@ CHECKS = {
              "Standard's refusals; protocol setter keeps special-ness and clears default ports; the setter layer's "
              "work-then-rollback model is atomic on failure; end to end for url_aggregator's set_username/set_password/"
              "set_search/set_hash/set_port/set_pathname (clear_pathname, parse_path over consume_prepared_path with its in-place "
-             "shortcut, the '/.' fix-up) and the state-override core of set_protocol: the model of the C++ setter (precondition, encode, in-place editor of C07, limit check, "
+             "shortcut, the '/.' fix-up) and set_protocol from its first line (scan, perfect-hash fast path / lower-casing slow path "
+             "of parse_scheme_with_colon<true>, refusals, default-port removal): the model of the C++ setter (precondition, encode, in-place editor of C07, limit check, "
              "roll-back) applied to a record's buffer is the buffer of the Standard's setter result when it fits the limit "
              "and the untouched buffer otherwise (these seven setter models are tied to the real setters call by call in "
              "C07's L1 run). The same end-to-end theorems for ada::url's set_username/set_password/set_port (with "
-             "url::parse_port)/set_hash/set_search/set_pathname (with url::parse_path and the proved path builder): the "
+             "url::parse_port)/set_hash/set_search/set_pathname (with url::parse_path and the proved path builder)/set_protocol "
+             "(with url::parse_scheme<true>): the "
              "C++ setter on the object holding a record is the object holding the Standard's result when its href fits "
              "the limit and the untouched object otherwise (Model/UrlSetters.lean, replayed on every real setter step "
              "in C04's and, under limits, C09's runs). Both URL types are compared with the Spec after every step of "
              "generated histories (all getters, origin, flags), failed steps are checked to leave every observable "
              "unchanged, and relative references are resolved against the object a history leaves behind.",
         design_ref="DESIGN.md §5 C03",
-        note="partial: seven setters of url_aggregator and six of ada::url are modelled and proved end to end; for the other "
-             "setters (href, host, hostname; ada::url::set_protocol; the scheme scanner in "
-             "front of set_protocol's core) conformance rests on the correspondence with the validated Spec (differential)."),
+        note="partial: seven of the ten setters are modelled statement by statement on both C++ types and proved end to end; "
+             "for set_href, set_host and set_hostname conformance rests on the correspondence with the validated Spec (differential)."),
     "C04": dict(
         technique="Lean 4 proof that the model of ada::url (get_href fast/general path, get_href_size, get_components) "
                   "computes the aggregator's layout for the same content; model tied to the real ada::url on every state; "
@@ -78,15 +79,15 @@ CHECKS = {
              "aggregator's eight offsets (false on the pinned tree, provable after fixes 32af07f/b6b9d92). The model is "
              "evaluated by the Lean driver on the field values of every real ada::url state and must give the real href, "
              "size and components. Setters: username_agrees / password_agrees / port_agrees / search_agrees / "
-             "hash_agrees / pathname_agrees - for every record satisfying the invariants of C19, every value and every limit, the model of "
+             "hash_agrees / pathname_agrees / protocol_agrees - for every record satisfying the invariants of C19, every value and every limit, the model of "
              "ada::url's setter viewed through the layout equals the model of url_aggregator's setter (same buffer, same "
              "offsets, same return value); both setter models are replayed against the real calls. The same (input, "
              "base, history) is applied to ada::url_aggregator and ada::url; after "
              "every operation return value and every observable incl. host kind, opaque flag, href size and the eight "
              "offsets are compared pairwise.",
         design_ref="DESIGN.md §5 C04, §11.3", category="proof",
-        note="Six component setters are modelled on both types and proved to agree; for set_href, set_host, set_hostname "
-             "and set_protocol the agreement of the two types is decided by the lock-step run (differential, "
+        note="Seven setters are modelled on both types and proved to agree; for set_href, set_host and set_hostname "
+             "the agreement of the two types is decided by the lock-step run (differential, "
              "generator-bounded) and by C03's comparison of each type with the Spec."),
     "C05": dict(
         technique="Lean 4 proof of the property on the Spec parser: every parse result is a canonical record and every "
